@@ -3,7 +3,7 @@
    N, Z, positive, nat stay the extracted inductive types.  No Extract Constant. *)
 Require Extraction.
 Require Import ExtrOcamlBasic.
-From BM Require Import Bytes Utf8 Strings Regex Escape Tokenizer Policy Url Style Attrs Loop Builder Entry Helpers C19Inst.
+From BM Require Import Bytes Utf8 Strings Regex Escape Tokenizer Policy Url Style Attrs Loop Builder Entry Helpers C19Inst C04Inst.
 Extraction Language OCaml.
 Extraction "model.ml"
   Bytes.beqb Utf8.runes Utf8.encode Regex.search Regex.matches Regex.witness C19Inst.c19_report
@@ -15,4 +15,4 @@ Extraction "model.ml"
   Loop.normalise Loop.run Loop.sanitize_bytes Loop.element_policies
   Builder.new_policy Builder.apply Builder.build
   Entry.sanitize_rw Entry.Sanitize Entry.SanitizeBytes Entry.SanitizeReader
-  Helpers.data_uri_image_policy.
+  Helpers.data_uri_image_policy C04Inst.ugc C04Inst.strict.
